@@ -4,6 +4,31 @@ VERIF = os.path.dirname(os.path.dirname(os.path.abspath(__file__)))
 ALL = ["C%02d" % i for i in range(1, 21)]
 
 CLAIMS = {
+ "C09": dict(
+    text="Coq theorems over the model of the parameter de-duplication and substitution machinery: mapping the unique "
+         "parameters back gives every slot its own tensor, the unique list has each distinct tensor once, aliasing is "
+         "preserved under substitution, user code inside useobjparams sees in every named slot the tensor supplied for that "
+         "slot's class, multi-sibling parameter splitting inverts concatenation - for all aliasing patterns and lengths. "
+         "Exact correspondence of the model with Uniquifier / EditableModule unique maps / PureFunction substitution; and an "
+         "implementation oracle: 12 functional workloads x 9 function kinds give the same values and 1st/2nd-order gradients "
+         "as the pure form.",
+    note="Trusted: Coq kernel + vm_compute; harness. The equality of results across function kinds is checked on the "
+         "implementation (pairwise, tolerance of the iterative solvers), it is not a theorem; the attribute-path tokenizer of "
+         "_utils/attr.py is exercised (list, dict, nested module paths) but not modelled.",
+    technique="Coq proof (lists / first-occurrence de-duplication) + exact correspondence + pairwise function-kind oracle",
+    ref="DESIGN.md section 7, C09"),
+ "C10": dict(
+    text="Coq theorems: every well-bracketed program of parameter substitutions, state-change locks, debug switches and "
+         "user-code evaluations, with a crash at ANY evaluation or none, returns the object store, the wrapper's current "
+         "parameters, the restore stack, the permission flag and the debug flag to exactly their initial values (induction on "
+         "programs); LIFO unwinding; refused substitution touches nothing; nn.Module parameter registration (objects and "
+         "order) is preserved by substitute-then-restore. The executable model is compared exactly with the real wrappers on "
+         "random programs x every crash index; the public functionals are subjected to crash-point enumeration (every "
+         "evaluation index, forward / backward / double backward, 8 object-holding function kinds, LinearOperator products).",
+    note="Trusted: Coq kernel + vm_compute; harness snapshots (identity, value, Parameter registration and order). Crash "
+         "points are evaluations of user code, not asynchronous exceptions.",
+    technique="Coq proof by induction over bracketed programs with crash points + exact correspondence + crash-point enumeration",
+    ref="DESIGN.md section 7, C10"),
  "C11": dict(
     text="Coq/MathComp theorems for every operator expression tree, every size, operand width and commutative ring with "
          "involution: mv/mm apply the expression's matrix, rmv/rmm its conjugate transpose, fullmatrix returns it; no product "
